@@ -38,11 +38,15 @@ NestQ(kind, n) ==
     \* a function TEST whose argument contains a filter whose test is again such a function: $[?match(value(@[?match(value(@.b), 'x')].b), 'x')]
     [] kind = "fnfilter" -> <<36, 91, 63, 109, 97, 116, 99, 104, 40, 118, 97, 108, 117, 101, 40>> \o Rep(<<64, 91, 63, 109, 97, 116, 99, 104, 40, 118, 97, 108, 117, 101, 40>>, n)
                             \o <<64, 46, 98>> \o Rep(<<41, 44, 32, 39, 120, 39, 41, 93, 46, 98>>, n) \o <<41, 44, 32, 39, 120, 39, 41, 93>>
+    \* NOT a query (a comparison where a value is expected), nested: $[?length(length(@.a) == 1) == 1]  - must be refused, and quickly
+    [] kind = "fnarg" -> <<36, 91, 63>> \o Rep(<<108, 101, 110, 103, 116, 104, 40>>, n + 1) \o <<64, 46, 97>> \o Rep(<<41, 32, 61, 61, 32, 49>>, n + 1) \o <<93>>
     \* comparisons with >= whose operands are equal at every level, over a document nested as deep: $[?count(@[?count(@[*]) >= 1]) >= 1]
     [] kind = "gefilter" -> <<36, 91, 63, 99, 111, 117, 110, 116, 40>> \o Rep(<<64, 91, 63, 99, 111, 117, 110, 116, 40>>, Max2(n - 3, 0)) \o <<64, 91, 42, 93>> \o Rep(<<41, 32, 62, 61, 32, 49, 93>>, Max2(n - 3, 0)) \o <<41, 32, 62, 61, 32, 49, 93>>
     \* the same with comparisons: $[?count(@[?count(@.b) > 0]) > 0]
     [] kind = "cmpfilter" -> <<36, 91, 63, 99, 111, 117, 110, 116, 40>> \o Rep(<<64, 91, 63, 99, 111, 117, 110, 116, 40>>, n) \o <<64, 46, 98>> \o Rep(<<41, 32, 62, 32, 48, 93>>, n) \o <<41, 32, 62, 32, 48, 93>>
-NestKinds == <<"paren", "notparen", "filter", "index", "name", "desc", "fn", "and", "union", "fnfilter", "cmpfilter", "gefilter">>
+NestKinds == <<"paren", "notparen", "filter", "index", "name", "desc", "fn", "and", "union", "fnfilter", "cmpfilter", "gefilter", "fnarg">>
+InvalidKinds == {"fnarg"}
+KindVerdict(kind) == IF kind \in InvalidKinds THEN "invalid" ELSE "valid"
 Depths == IF Thorough THEN <<8, 64, 512, 4096>> ELSE <<8, 64, 512>>
 
 \* extreme integers and literals (as strings: TLC integers are 32-bit)
@@ -121,13 +125,13 @@ Spec == Init /\ [][Next]_vars /\ WF_vars(ReturnOk \/ ReturnErr \/ ReturnRef)
 AlwaysReturnable == pc = "inCall" => (OkAllowed(Cases[cur], ent) \/ ErrAllowed(Cases[cur], ent) \/ RefAllowed(Cases[cur], ent))
 EveryCallReturns == [](pc = "inCall" => <>(pc = "idle"))
 \* the nesting generators produce valid queries (checked for the depths TLC can parse quickly)
-ASSUME NestValid == \A k \in 1..Len(NestKinds) : \A n \in {1, 2, 8, 33} : Verdict(NestQ(NestKinds[k], n)) = "valid"
+ASSUME NestValid == \A k \in 1..Len(NestKinds) : \A n \in {1, 2, 8, 33} : Verdict(NestQ(NestKinds[k], n)) = KindVerdict(NestKinds[k])
 
 \* ---- export of the extreme inputs (once, from the initial state) ---------------------------
 ExportCases ==
   /\ \A k \in 1..Len(NestKinds) : \A d \in 1..Len(Depths) :
         PrintT(<<"REPLAY", ToJson([id |-> <<"nest", NestKinds[k], Depths[d]>>, q |-> NestQ(NestKinds[k], Depths[d]),
-                                   doc |-> [nest |-> Depths[d], kind |-> IF k % 2 = 0 THEN "arr" ELSE "obj"], verdict |-> "valid"])>>)
+                                   doc |-> [nest |-> Depths[d], kind |-> IF k % 2 = 0 THEN "arr" ELSE "obj"], verdict |-> KindVerdict(NestKinds[k])])>>)
   /\ \A k \in 1..Len(ExtremeQ) :
         PrintT(<<"REPLAY", ToJson([id |-> <<"extreme", "", k>>, kind |-> "extreme", q |-> ExtremeQ[k], doc |-> [nest |-> (k % 4), kind |-> "arr"], verdict |-> Verdict(ExtremeQ[k])])>>)
   /\ PrintT(<<"REPLAY", ToJson([id |-> <<"flat", "index", 60000>>, q |-> <<36, 91, 42, 93>> \o [i \in 1..180000 |-> CASE i % 3 = 1 -> 91 [] i % 3 = 2 -> 48 [] OTHER -> 93],
